@@ -2,5 +2,34 @@
 
 package benchfmt
 
-// VerifAtofC03 exposes the reader's atof (integer fast path, else bytesconv.ParseFloat).
-func VerifAtofC03(x []byte) (float64, error) { return atof(x) }
+import (
+	"bytes"
+
+	"golang.org/x/perf/benchfmt/internal/bytesconv"
+)
+
+// VerifAtofC03 is the reader's number reading (integer fast path, else bytesconv.ParseFloat),
+// reached the way the property reaches it: through a Reader on a real benchmark line. (It used to
+// call the package-level function `atof` directly; that made the harness stop compiling — and the
+// check go blind — as soon as the function changed its shape, e.g. became a method of Reader.)
+// A range error comes with ±Inf, a syntax error with 0, as ParseFloat returns them.
+func VerifAtofC03(x []byte) (float64, error) {
+	line := append(append([]byte("BenchmarkX 1 "), x...), " u\n"...)
+	r := NewReader(bytes.NewReader(line), "f")
+	syn := &bytesconv.NumError{Func: "ParseFloat", Num: string(x), Err: bytesconv.ErrSyntax}
+	if !r.Scan() {
+		return 0, syn
+	}
+	switch rec := r.Result().(type) {
+	case *Result:
+		if len(rec.Values) == 1 {
+			return rec.Values[0].Value, nil
+		}
+	case *SyntaxError:
+		if rec.Msg == "parsing measurement: value out of range" {
+			inf := bytesconv.VerifInf(len(x) > 0 && x[0] == '-')
+			return inf, &bytesconv.NumError{Func: "ParseFloat", Num: string(x), Err: bytesconv.ErrRange}
+		}
+	}
+	return 0, syn
+}
